@@ -69,10 +69,22 @@ fn gen_ring(r: &mut Rng, c: &Cfg, dims: usize) -> Vec<V> {
             // first and last differ only in Z or M (must still be closed by a copy when dims say so)
             if n >= 2 {
                 let mut l = v[0];
+                // a value that really differs (x + 1 is absorbed by huge and no-data values:
+                // -1e39 becomes -2e39, an infinity or NaN becomes 0)
+                let differ = |x: f64| -> f64 {
+                    let y = x + 1.0;
+                    if !y.is_nan() && y.to_bits() != x.to_bits() {
+                        y
+                    } else if x.is_nan() || x.is_infinite() {
+                        0.0
+                    } else {
+                        x * 2.0
+                    }
+                };
                 if dims == 4 && r.chance(0.5) {
-                    l[2] = f64::to_bits(f64::from_bits(l[2]) + 1.0);
+                    l[2] = f64::to_bits(differ(f64::from_bits(l[2])));
                 } else {
-                    l[3] = f64::to_bits(f64::from_bits(l[3]) + 1.0);
+                    l[3] = f64::to_bits(differ(f64::from_bits(l[3])));
                 }
                 v[n - 1] = l;
             }
@@ -268,6 +280,50 @@ fn macro_instances(rep: &mut Report, ctx: &Ctx) {
     ];
     check_multipatch(&minput, &mpa.d(), case, rep);
     rep.count("macro_instances", 5);
+
+    // ---- every other arm of the four macros (field syntax and tuple syntax, 2-D / M / Z), with
+    //      pairwise different values per field, against the plain constructors
+    let mut cmp = |name: &str, a: D, b: D| {
+        rep.count("macro_instances", 1);
+        if a != b {
+            rep.violation(&format!("macro/{}", name), case, J::obj(vec![("macro", a.to_json()), ("constructor", b.to_json())]));
+        }
+    };
+    let pz = |k: f64| PointZ::new(k, k + 100.0, k + 200.0, k + 300.0);
+    let pm = |k: f64| PointM::new(k, k + 100.0, k + 300.0);
+    let p2 = |k: f64| Point::new(k, k + 100.0);
+    cmp(
+        "multipatch!{fields}",
+        shapefile::multipatch!(TriangleFan({x: 1.0, y: 101.0, z: 201.0, m: 301.0}, {x: 2.0, y: 102.0, z: 202.0, m: 302.0}, {x: 3.0, y: 103.0, z: 203.0, m: 303.0})).d(),
+        Multipatch::new(Patch::TriangleFan(vec![pz(1.0), pz(2.0), pz(3.0)])).d(),
+    );
+    cmp(
+        "polygon!{fields}",
+        shapefile::polygon!(Outer({x: 0.0, y: 0.0}, {x: 0.0, y: 3.0}, {x: 4.0, y: 3.0}, {x: 4.0, y: 0.0})).d(),
+        Polygon::new(PolygonRing::Outer(vec![Point::new(0.0, 0.0), Point::new(0.0, 3.0), Point::new(4.0, 3.0), Point::new(4.0, 0.0)])).d(),
+    );
+    cmp(
+        "polygon!{fields,M}",
+        shapefile::polygon!(Outer({x: 0.0, y: 0.0, m: 7.0}, {x: 0.0, y: 3.0, m: 8.0}, {x: 4.0, y: 3.0, m: 9.0}, {x: 4.0, y: 0.0, m: 10.0})).d(),
+        PolygonM::new(PolygonRing::Outer(vec![PointM::new(0.0, 0.0, 7.0), PointM::new(0.0, 3.0, 8.0), PointM::new(4.0, 3.0, 9.0), PointM::new(4.0, 0.0, 10.0)])).d(),
+    );
+    cmp(
+        "polygon!{fields,Z}",
+        shapefile::polygon!(Outer({x: 0.0, y: 0.0, z: 20.0, m: 7.0}, {x: 0.0, y: 3.0, z: 21.0, m: 8.0}, {x: 4.0, y: 3.0, z: 22.0, m: 9.0}, {x: 4.0, y: 0.0, z: 23.0, m: 10.0})).d(),
+        PolygonZ::new(PolygonRing::Outer(vec![PointZ::new(0.0, 0.0, 20.0, 7.0), PointZ::new(0.0, 3.0, 21.0, 8.0), PointZ::new(4.0, 3.0, 22.0, 9.0), PointZ::new(4.0, 0.0, 23.0, 10.0)])).d(),
+    );
+    cmp("polyline![fields]", shapefile::polyline!([{x: 1.0, y: 101.0}, {x: 2.0, y: 102.0}], [{x: 3.0, y: 103.0}, {x: 4.0, y: 104.0}, {x: 5.0, y: 105.0}]).d(), Polyline::with_parts(vec![vec![p2(1.0), p2(2.0)], vec![p2(3.0), p2(4.0), p2(5.0)]]).d());
+    cmp("polyline![tuples]", shapefile::polyline!([(1.0, 101.0), (2.0, 102.0)], [(3.0, 103.0), (4.0, 104.0), (5.0, 105.0)]).d(), Polyline::with_parts(vec![vec![p2(1.0), p2(2.0)], vec![p2(3.0), p2(4.0), p2(5.0)]]).d());
+    cmp("polyline![fields,M]", shapefile::polyline!([{x: 1.0, y: 101.0, m: 301.0}, {x: 2.0, y: 102.0, m: 302.0}]).d(), PolylineM::new(vec![pm(1.0), pm(2.0)]).d());
+    cmp("polyline![tuples,M]", shapefile::polyline!([(1.0, 101.0, 301.0), (2.0, 102.0, 302.0)]).d(), PolylineM::new(vec![pm(1.0), pm(2.0)]).d());
+    cmp("polyline![fields,Z]", shapefile::polyline!([{x: 1.0, y: 101.0, z: 201.0, m: 301.0}, {x: 2.0, y: 102.0, z: 202.0, m: 302.0}]).d(), PolylineZ::new(vec![pz(1.0), pz(2.0)]).d());
+    cmp("polyline![tuples,Z]", shapefile::polyline!([(1.0, 101.0, 201.0, 301.0), (2.0, 102.0, 202.0, 302.0)]).d(), PolylineZ::new(vec![pz(1.0), pz(2.0)]).d());
+    cmp("multipoint!{fields}", shapefile::multipoint!({x: 1.0, y: 101.0}, {x: 2.0, y: 102.0}).d(), Multipoint::new(vec![p2(1.0), p2(2.0)]).d());
+    cmp("multipoint!(tuples)", shapefile::multipoint!((1.0, 101.0), (2.0, 102.0)).d(), Multipoint::new(vec![p2(1.0), p2(2.0)]).d());
+    cmp("multipoint!{fields,M}", shapefile::multipoint!({x: 1.0, y: 101.0, m: 301.0}, {x: 2.0, y: 102.0, m: 302.0}).d(), MultipointM::new(vec![pm(1.0), pm(2.0)]).d());
+    cmp("multipoint!(tuples,M)", shapefile::multipoint!((1.0, 101.0, 301.0), (2.0, 102.0, 302.0)).d(), MultipointM::new(vec![pm(1.0), pm(2.0)]).d());
+    cmp("multipoint!{fields,Z}", shapefile::multipoint!({x: 1.0, y: 101.0, z: 201.0, m: 301.0}, {x: 2.0, y: 102.0, z: 202.0, m: 302.0}).d(), MultipointZ::new(vec![pz(1.0), pz(2.0)]).d());
+    cmp("multipoint!(tuples,Z)", shapefile::multipoint!((1.0, 101.0, 201.0, 301.0), (2.0, 102.0, 202.0, 302.0)).d(), MultipointZ::new(vec![pz(1.0), pz(2.0)]).d());
 }
 
 pub fn run(ctx: &Ctx) -> Report {
@@ -301,13 +357,25 @@ pub fn run(ctx: &Ctx) -> Report {
             25 => 3,
             _ => 4,
         };
-        let nr = r.usize_in(1, c.max_parts);
+        // amounts: every 97th case has 33..70 rings / patches, every 50th one ring of 33..200 vertices
+        let many_rings = i % 97 == 23 && !cfg!(miri);
+        let big_ring = i % 50 == 17 && !cfg!(miri);
+        let nr = if many_rings { r.usize_in(33, 70) } else { r.usize_in(1, c.max_parts) };
         let mut input: Vec<(i32, Vec<V>)> = (0..nr)
             .map(|_| {
                 let k = if ty == 31 { r.below(6) as i32 } else { r.below(2) as i32 };
                 (k, gen_ring(&mut r, &c, dims))
             })
             .collect();
+        if big_ring {
+            let which = r.usize_in(0, input.len() - 1);
+            let l = r.usize_in(33, 200);
+            input[which].1 = (0..l).map(|_| gen_vertex(&mut r, &c)).collect();
+            rep.count("cases_with_a_ring_of_33_to_200_vertices", 1);
+        }
+        if many_rings {
+            rep.count("cases_with_33_to_70_rings", 1);
+        }
         // exact-pool regime 1, every fifth case: UTM-like coordinates (large common offset, 1/1024
         // grid, small rings)
         if regime == 1 && i % 5 == 1 {
